@@ -349,13 +349,15 @@ class ModelCacheMixin:
         cached = []
         # The cached models only answer the query exactly when there are no extra constraints (another, uncached
         # model may satisfy them with a smaller value) and when the minimum was established in the same signedness.
-        if len(extra_constraints) == 0 and (
-            e.hash() in self._eval_exhausted
-            or e.hash() in (self._min_signed_exhausted if signed else self._min_exhausted)
-        ):
-            # we set allow_unconstrained to False because we expect all returned values for e are returned by Z3,
-            # instead of some arbitrarily assigned concrete values.
-            cached = self._get_solutions(e, extra_constraints=extra_constraints, allow_unconstrained=False)
+        if len(extra_constraints) == 0:
+            if e.hash() in self._eval_exhausted:
+                # evaluate the cached models exactly as batch_eval did when it found e exhausted (a model that
+                # does not mention a variable stands for the default value of that variable)
+                cached = self._get_solutions(e)
+            elif e.hash() in (self._min_signed_exhausted if signed else self._min_exhausted):
+                # we set allow_unconstrained to False because we expect all returned values for e are returned by
+                # Z3, instead of some arbitrarily assigned concrete values.
+                cached = self._get_solutions(e, allow_unconstrained=False)
 
         if len(cached) > 0:
 
@@ -376,11 +378,11 @@ class ModelCacheMixin:
     def max(self, e, extra_constraints=(), signed=False, exact=None):
         cached = []
         # see min(): exact only without extra constraints and in the signedness the maximum was established in
-        if len(extra_constraints) == 0 and (
-            e.hash() in self._eval_exhausted
-            or e.hash() in (self._max_signed_exhausted if signed else self._max_exhausted)
-        ):
-            cached = self._get_solutions(e, extra_constraints=extra_constraints, allow_unconstrained=False)
+        if len(extra_constraints) == 0:
+            if e.hash() in self._eval_exhausted:
+                cached = self._get_solutions(e)
+            elif e.hash() in (self._max_signed_exhausted if signed else self._max_exhausted):
+                cached = self._get_solutions(e, allow_unconstrained=False)
 
         if len(cached) > 0:
 
